@@ -304,6 +304,12 @@ let handle (line : string) : string =
     (match WireSpec.spec_decode_plain (nat_of_int (Stdlib.List.length bs + 1)) bs with
      | None -> "none"
      | Some l -> if l = [] then "-" else Stdlib.String.concat "," (Stdlib.List.map (fun (t, p) -> hex_of_n t ^ ":" ^ hex_of_bytes p) l))
+  | "ka" :: h :: horizon :: arrs ->
+    let hz = z_of_int (int_of_string h) in
+    let obs = Keepalive.ka_sim (nat_of_int (4 * Stdlib.List.length arrs + 4000)) hz (Keepalive.ka_init hz)
+        (Stdlib.List.map (fun a -> z_of_int (int_of_string a)) arrs) (z_of_int (int_of_string horizon)) in
+    Stdlib.String.concat "," (Stdlib.List.map (function Keepalive.KPingSent t -> "P" ^ string_of_int (int_of_z t)
+                                                         | Keepalive.KDead t -> "X" ^ string_of_int (int_of_z t)) obs)
   | _ -> "?unknown-command"
 
 let () =
